@@ -78,7 +78,34 @@ impl Sub for Cross {
     }
     let (_, pseg, fseg) = split_token(&t).expect("well-formed");
     let payload = unb64(&pseg).expect("payload");
-    let presented = match c.presentation % 4 {
+    let presented = match c.presentation % 6 {
+      4 | 5 => {
+        // the other direction: an authentic token OF Y whose header text names X (4) or an invented protocol (5),
+        // presented to Y - "a token whose header names X is rejected by every entry point of any other protocol"
+        let ky = universe(y, &seed);
+        let ly = ky.lib().expect("valid key");
+        let ay = if y.has_assertion() { c.assertion.as_deref() } else { None };
+        let ny: Vec<u8> = if y == Proto::V2L { c.nonce[..24].to_vec() } else { c.nonce.clone() };
+        let ty = match layer_build(y, c.layer, &ly, &ny, &c.msg, c.footer.as_deref(), ay) {
+          Ok(t) => t,
+          Err(_) => return Verdict::Discard,
+        };
+        let (_, ps, fs) = split_token(&ty).expect("well-formed");
+        let body = unb64(&ps).expect("payload");
+        if c.presentation % 6 == 4 {
+          join_token(x.header(), &body, fs.as_deref())
+        } else {
+          // same purpose and an unknown version, or same version and a misspelt purpose
+          let h = y.header();
+          let invented = match c.warmups % 4 {
+            0 => h.replacen(&h[1..2], "9", 1),
+            1 => h.replacen(&h[1..2], "0", 1),
+            2 => h.replacen("local", "locaI", 1).replacen("public", "pubIic", 1),
+            _ => h.to_uppercase(),
+          };
+          join_token(&invented, &body, fs.as_deref())
+        }
+      }
       0 => t.clone(),
       1 => join_token(y.header(), &payload, fseg.as_deref()),
       2 => {
@@ -99,7 +126,7 @@ impl Sub for Cross {
       }
     };
     cl.tag(format!("{}->{}", x.label(), y.label()));
-    cl.tag(format!("presentation:{}", ["verbatim", "relabelled", "relabelled+padded", "relabelled+re-laid-out"][(c.presentation % 4) as usize]));
+    cl.tag(format!("presentation:{}", ["verbatim", "relabelled", "relabelled+padded", "relabelled+re-laid-out", "token-of-Y-named-X", "token-of-Y-with-invented-header"][(c.presentation % 6) as usize]));
     cl.tag(format!("layer:{}", c.layer.label()));
     cl.nontrivial(true);
     let ky = universe(y, &seed);
@@ -110,7 +137,7 @@ impl Sub for Cross {
       match layer_parse(y, layer, &ly, &presented, c.footer.as_deref(), ay) {
         Err(e) => cl.tag(format!("rejected:{}", e.variant)),
         Ok(o) => vio!("C07:accepted:{}->{}:{}", x.label(), y.label(), layer.label();
-          "{} {} entry point accepted a {} token (presentation {}): returned {:?}; presented {}", y.label(), layer.label(), x.label(), c.presentation % 4, o.message(), presented),
+          "{} {} entry point accepted a {} token (presentation {}): returned {:?}; presented {}", y.label(), layer.label(), x.label(), c.presentation % 6, o.message(), presented),
       }
     }
     Verdict::Pass
@@ -212,7 +239,7 @@ pub fn fuzz_one(data: &[u8]) -> Option<(String, String)> {
 fn case(x: Proto, y: Proto) -> BoxedStrategy<CrossCase> {
   (
     any::<u16>(),
-    0u8..4,
+    0u8..6,
     gen::bytes32(),
     vec(any::<u8>(), 32),
     prop_oneof![12 => gen::jsonish(40), 1 => Just(format!("{{\"data\":\"{}\"}}", "x".repeat(70_000)))],
@@ -250,7 +277,7 @@ pub fn run(ctx: &Ctx) -> EvidenceMeta {
     // fixed part: every presentation x build layer once, deterministically
     jobs.push(Box::new(move || {
       let mut cases = vec![];
-      for presentation in 0..4u8 {
+      for presentation in 0..6u8 {
         for layer in Layer::ALL {
           for (i, footer) in [None, Some("{\"kid\":\"k\"}".to_string())].into_iter().enumerate() {
             cases.push(CrossCase {
@@ -276,7 +303,7 @@ pub fn run(ctx: &Ctx) -> EvidenceMeta {
   }
   run_jobs(jobs);
   EvidenceMeta {
-    rule: "all 56 ordered pairs (X, Y), X != Y (exhaustive over pairs x 4 presentations x 3 build layers x {no footer, footer+assertion}, plus generated messages/keys/footers): a token of X - built with key material reused wherever both sides take the same bytes \
+    rule: "all 56 ordered pairs (X, Y), X != Y (exhaustive over pairs x 6 presentations (X's token verbatim / relabelled to Y / padded / re-laid-out; Y's own token relabelled to X or to an invented header) x 3 build layers x {no footer, footer+assertion}, plus generated messages/keys/footers): a token of X - built with key material reused wherever both sides take the same bytes \
            (one 32-byte string is the symmetric key of every local protocol and the Ed25519 public key; one Ed25519 pair for v2.public and v4.public) - is presented to every entry point (core, generic, batteries-included) of Y \
            verbatim, with its header rewritten to Y's, rewritten and padded to Y's minimum payload length, and rewritten with nonce/trailer re-laid out to Y's lengths. Oracle: Y returns Err (never Ok, never a panic). \
            Non-trivial = every case; distinct by case."
